@@ -21,3 +21,9 @@ run C18 dulwich/index.py "s.replace('    ret = stat.S_IFREG | 0o644\n    if mode
 run C13 dulwich/graph.py "s.replace('    return lcas == [c1]','    return c1 in lcas or not lcas')"
 run C02 dulwich/pack.py "s.replace('            ret.insert(0, 0x80 | (delta_base & 0x7F))','            ret.insert(0, 0x80 | (delta_base & 0x3F))')"
 run C04 dulwich/objects.py "s.replace('    dcomped = dcomp.decompress(string, max_size + 1)','    dcomped = dcomp.decompress(string, max_size)')"
+run C20 dulwich/config.py "s.replace('    ord(b\"t\"): ord(b\"\\\\t\"),\n','')"
+run C20 dulwich/config.py "s.replace('        elif not string_open and character in comment_bytes:','        elif character in comment_bytes:')"
+run C20 dulwich/config.py "s.replace('            out += name[i + 1 : i + 2]','            out += name[i : i + 1]')"
+run C18 dulwich/index.py "s.replace('    if current_stat is None:\n        # Nothing to remove on disk, but the path must leave the index too\n        try:\n            del index[path]\n        except KeyError:\n            pass\n        return\n','    if current_stat is None:\n        return\n')"
+run C10 dulwich/gc.py "s.replace('                    age = time.time() - mtime\n                    if age < grace_period:\n                        if progress:\n                            progress(\n                                f\"Keeping {sha.decode(\'ascii\', \'replace\')} (age: {age:.0f}s < grace period: {grace_period}s)\"\n                            )\n                        continue\n                except KeyError:\n                    # Object not found, skip it\n                    continue\n\n            if progress:\n                progress(f\"Pruning','                    age = time.time() - mtime\n                    if age > grace_period:\n                        continue\n                except KeyError:\n                    continue\n\n            if progress:\n                progress(f\"Pruning')"
+run C14 dulwich/object_store.py "s.replace('                    pack = self._get_pack_by_name(pack_name)\n                    return pack.get_raw(sha)','                    pack = self._get_pack_by_name(pack_name)\n                    return pack.data.get_object_at(_offset)')"
